@@ -92,6 +92,43 @@ pub fn run_one(src: &str, case: &Value) -> Value {
     out
 }
 
+/// The argument-supplying facade (`Workspace::apply_args`) used the way a client supplies what is still reported:
+/// in several calls.  The template it leaves must be the one a single call with all the arguments leaves.
+fn facade_event(src: &str, case: &Value) -> Value {
+    let args = tirj::args_from(&case["args"]);
+    let name = str_of(&case["tx"]);
+    let keys: Vec<String> = args.keys().cloned().collect();
+    let r = guarded(|| -> Result<Value, String> {
+        let lower = |steps: &[Vec<String>]| -> Result<Option<tir::Tx>, String> {
+            let mut ws = tx3_lang::Workspace::from_string(src.to_string());
+            ws.lower().map_err(|e| format!("{e:?}").chars().take(80).collect::<String>())?;
+            for step in steps {
+                let part: reduce::ArgMap = args.iter().filter(|(k, _)| step.contains(k)).map(|(k, v)| (k.clone(), v.clone())).collect();
+                ws.apply_args(&part).map_err(|e| format!("{e:?}").chars().take(80).collect::<String>())?;
+            }
+            Ok(ws.tir(name).cloned())
+        };
+        let half = keys.len() / 2;
+        let single = lower(&[keys.clone()])?;
+        let two = lower(&[keys[..half].to_vec(), keys[half..].to_vec()])?;
+        let one_by_one = lower(&keys.iter().map(|k| vec![k.clone()]).collect::<Vec<_>>())?;
+        let proj = |t: &Option<tir::Tx>| t.as_ref().map(tirj::proj_tx).unwrap_or(Value::Null);
+        let residual = |t: &Option<tir::Tx>| -> Vec<String> {
+            t.as_ref().map(|t| reduce::find_params(t).keys().filter(|k| args.contains_key(*k)).cloned().collect()).unwrap_or_default()
+        };
+        Ok(json!({"ev": "Facade", "outcome": "ok",
+                  "two_calls_same": proj(&single) == proj(&two), "one_by_one_same": proj(&single) == proj(&one_by_one),
+                  "residual_two_calls": residual(&two), "residual_one_by_one": residual(&one_by_one), "residual_single": residual(&single)}))
+    });
+    match r {
+        Ok(Ok(v)) => v,
+        Ok(Err(e)) => json!({"ev": "Facade", "outcome": "err", "msg": e, "two_calls_same": true, "one_by_one_same": true,
+                             "residual_two_calls": [], "residual_one_by_one": [], "residual_single": []}),
+        Err(p) => json!({"ev": "Facade", "outcome": "panic", "msg": p["msg"], "two_calls_same": true, "one_by_one_same": true,
+                         "residual_two_calls": [], "residual_one_by_one": [], "residual_single": []}),
+    }
+}
+
 pub fn run(case: &Value) -> Value {
     let mut events = vec![];
     // the same program in several layouts
@@ -105,6 +142,9 @@ pub fn run(case: &Value) -> Value {
             }
         }
         events.push(e);
+        if i == 0 && case["facade"].as_bool().unwrap_or(false) {
+            events.push(facade_event(str_of(src), case));
+        }
     }
     json!({"events": events})
 }
